@@ -385,6 +385,7 @@ def run(ctx):
     ctx.acc.merge(acc)
     h = ctx.pick(3, 4)
     ctx.level('histories h<=%d' % h, [job_histories.job(i, h) for i in range(len(POOL))])
+    G.run_deep(ctx, __name__, 8)
 
 
 def replay(case):
